@@ -32,6 +32,9 @@ class ClassLevelCache:
     # regardless of the similarity of their content, gets its own entry in these sets.
     done: Set[Module] = field(default_factory=set)
     pending: Set[Module] = field(default_factory=set)
+    # Modules whose visit by this pass raised, with the error it raised.
+    # Such Modules may have been left partially re-written, and are never visited again.
+    failed: Dict[Module, Exception] = field(default_factory=dict)
 
 
 class ElabPass:
@@ -105,6 +108,11 @@ class ElabPass:
         if module in self.CLASS_LEVEL_CACHE.done:
             return module
 
+        # Check if an earlier visit by this pass failed.
+        # The Module may be left half-elaborated; report the original error rather than visiting it again.
+        if module in self.CLASS_LEVEL_CACHE.failed:
+            raise self.CLASS_LEVEL_CACHE.failed[module]
+
         # Add `module` to our elab stack.
         # This is helpful even if (especially if) we find it's a circular dependency next.
         self.stack.append(module)
@@ -115,20 +123,26 @@ class ElabPass:
             return self.fail(msg)
         self.CLASS_LEVEL_CACHE.pending.add(module)
 
-        # Depth-first traverse instances, ensuring their targets are defined
-        for inst in module.instances.values():
-            self.elaborate_instance_base(inst)
-        for arr in module.instarrays.values():
-            self.elaborate_instance_base(arr)
-        for instbundle in module.instbundles.values():
-            self.elaborate_instance_base(instbundle)
+        try:
+            # Depth-first traverse instances, ensuring their targets are defined
+            for inst in module.instances.values():
+                self.elaborate_instance_base(inst)
+            for arr in module.instarrays.values():
+                self.elaborate_instance_base(arr)
+            for instbundle in module.instbundles.values():
+                self.elaborate_instance_base(instbundle)
 
-        # Traverse Bundle instances
-        for bundle in module.bundles.values():
-            self.elaborate_bundle_instance(bundle)
+            # Traverse Bundle instances
+            for bundle in module.bundles.values():
+                self.elaborate_bundle_instance(bundle)
 
-        # Run the pass-specific `elaborate_module`
-        result = self.elaborate_module(module)
+            # Run the pass-specific `elaborate_module`
+            result = self.elaborate_module(module)
+        except Exception as e:
+            # The visit failed. `module` is no longer "in flight", and is recorded as failed.
+            self.CLASS_LEVEL_CACHE.pending.discard(module)
+            self.CLASS_LEVEL_CACHE.failed[module] = e
+            raise
 
         # Pop the hierarchy-stack and return it
         self.stack.pop()
